@@ -423,40 +423,60 @@ def compare_case(ctx, case, ps, rec, mout):
     return diffs, zcs, mp
 
 
+def _parab_py(a, b, c, fa, fb, fc):
+    """navigation only (which observed abscissa is the next estimate); the comparison itself uses the Lean model"""
+    try:
+        with np.errstate(all="ignore"):
+            return b - 0.5 * (((b - a) ** 2 * (fb - fc) - (b - c) ** 2 * (fb - fa)) / ((b - a) * (fb - fc) - (b - c) * (fb - fa)))
+    except ZeroDivisionError:
+        return float("nan")
+
+
 def parab_checks(ctx, rec, case):
-    """Every observable update of `_get_max_parab`: model parabStep vs the abscissa the code evaluated next."""
+    """Every observable update of `_get_max_parab`: the model's parabStep on the code's own (a, b, c, f_a, f_b, f_c) vs the
+    abscissa the code evaluated (or returned) next. The chain is followed through the recorded calls of `fun` made before
+    any fallback to the bounded minimiser, so extra evaluations (e.g. a verification of the answer) do not disturb it."""
     lines, exp = [], []
     for m in rec.maxcalls:
-        calls = m["funcalls"]
         fb_at = m["fallback_at"]
-        npar = len(calls) if fb_at is None else fb_at
-        if npar < 3:
+        calls = [(float(x), float(y)) for (x, y) in (m["funcalls"] if fb_at is None else m["funcalls"][:fb_at])]
+        if len(calls) < 3:
             continue
         a, b, c = float(m["lo"]), (float(m["lo"]) + float(m["hi"])) / 2.0, float(m["hi"])
-        if [float(calls[0][0]), float(calls[1][0]), float(calls[2][0])] != [a, b, c]:
-            ctx.disagree("c03parab-init", {"case": case, "bracket": [a, c]}, [float(x[0]) for x in calls[:3]], [a, b, c])
+        if [calls[0][0], calls[1][0], calls[2][0]] != [a, b, c]:
+            ctx.disagree("c03parab-init", {"case": case, "bracket": [a, c]}, [x[0] for x in calls[:3]], [a, b, c])
             continue
-        fa, fb, fc = float(calls[0][1]), float(calls[1][1]), float(calls[2][1])
-        idx = 3
+        fa, fb, fc = calls[0][1], calls[1][1], calls[2][1]
+        pos = 3
+        width = c - a
         while True:
-            # the update is evaluated now (x == b); its result is the next abscissa handed to fun, or the returned value
-            if idx < npar:
-                x_obs = float(calls[idx][0])
-            elif fb_at is None:
+            xp = _parab_py(a, b, c, fa, fb, fc)
+            if not math.isfinite(xp):
+                break          # zero denominator: the code falls back without evaluating x
+            tolx = 1e-9 * abs(width) + 1e-12
+            hit = next((k for k in range(pos, len(calls)) if abs(calls[k][0] - xp) <= tolx), None)
+            if hit is not None:
+                x_obs = calls[hit][0]
+            elif fb_at is None and abs(float(m["value"]) - xp) <= tolx:
                 x_obs = float(m["value"])
             else:
-                break          # FloatingPointError in the update: fell back without evaluating x
-            lines.append("c03parab " + " ".join(lib.f2h(v) for v in (a, b, c, fa, fb, fc, b)))
-            exp.append((x_obs, c - a, case, [a, b, c, fa, fb, fc]))
-            if not idx + 2 < npar:
-                break          # converged (returned x), or diverged at x (fallback / best guess follows)
-            a2, c2 = (a + x_obs) / 2.0, (x_obs + c) / 2.0
-            if [float(calls[idx + 1][0]), float(calls[idx + 2][0])] != [a2, c2]:
-                ctx.disagree("c03parab-shrink", {"case": case}, [float(calls[idx + 1][0]), float(calls[idx + 2][0])], [a2, c2])
+                # the estimate the model predicts was neither evaluated nor returned
+                x_obs = float(m["value"]) if pos >= len(calls) else calls[pos][0]
+                lines.append("c03parab " + " ".join(lib.f2h(v) for v in (a, b, c, fa, fb, fc, b)))
+                exp.append((x_obs, width, case, [a, b, c, fa, fb, fc]))
                 break
-            fa, fb, fc = float(calls[idx + 1][1]), float(calls[idx][1]), float(calls[idx + 2][1])
+            lines.append("c03parab " + " ".join(lib.f2h(v) for v in (a, b, c, fa, fb, fc, b)))
+            exp.append((x_obs, width, case, [a, b, c, fa, fb, fc]))
+            if hit is None:
+                break          # converged: x returned
+            a2, c2 = (a + x_obs) / 2.0, (x_obs + c) / 2.0
+            ia = next((k for k in range(hit + 1, len(calls)) if calls[k][0] == a2), None)
+            ic = next((k for k in range(hit + 1, len(calls)) if calls[k][0] == c2), None)
+            if ia is None or ic is None:
+                break          # diverged at x (fallback / best guess follows) or accepted x
+            fa, fb, fc = calls[ia][1], calls[hit][1], calls[ic][1]
             a, b, c = a2, x_obs, c2
-            idx += 3
+            pos = max(ia, ic) + 1
     return lines, exp
 
 
